@@ -249,7 +249,17 @@ def run_cases(exe, cases, tag, jobs=16, batch=None, cpu=120, env_extra=None, con
                     else:
                         results[c.cid] = r2
     shutil.rmtree(base, ignore_errors=True)
+    for c in cases:
+        r = results.get(c.cid)
+        if r is not None and r.status == "ok":
+            for fd in r.ops("fds"):
+                FD_LEAKS.append(dict(case=c.cid, open_descriptors_at_begin=fd["begin"], open_descriptors_at_end=fd["end"],
+                                     script=c.script()[-3000:]))
     return results
+
+
+# cases that ended with a different number of open descriptors than they started with (reported by Check.finish)
+FD_LEAKS = []
 
 
 def get_exe(variant="asan", name="yrh", sources=("yrh.c",), extra_cflags=(), extra_ldflags=()):
